@@ -1,4 +1,5 @@
 import KyupyVerif.Proofs.SubstituteWire
+import KyupyVerif.Proofs.WFr
 /-! Helper lemmas for C10 (`substitute`), part 5: frame and wiring assembled for `substituteCore`. -/
 namespace KV.Transform
 open KV
@@ -60,18 +61,24 @@ theorem mem_zip_of_getElem? {as : List Nat} {bs : List (Option Nat)} {k a : Nat}
     (h1 : as[k]? = some a) (h2 : bs[k]? = some b) : (a, b) ∈ as.zip bs :=
   List.mem_iff_getElem?.mpr ⟨k, List.getElem?_zip_eq_some.mpr ⟨h1, h2⟩⟩
 
-/-- frame and wiring of `substituteCore` when the designated cell exists and no connected input is ignored -/
-theorem substituteCore_wire (h : NNet) (c : Nat) (m : NNet) (sh : Shape) (hs : implShape m = some sh) (w : WF h)
-    (hc : c < h.net.nodes.size) (dn : Nat) (hd : sh.des = some dn)
+/-- frame and wiring of the phases of `substituteCore` run with the cell kept as the copy of node `dn` of the implementation
+    (`dn` = the designated cell; for an implementation without designated cell the *virtual* run with `dn` = the number of
+    nodes of the implementation, which leaves the cell in the circuit as an isolated node) and no connected input ignored -/
+theorem substituteCore_wireP (h : NNet) (c : Nat) (m : NNet) (sh : Shape) (w : WFr h)
+    (hc : c < h.net.nodes.size) (dn : Nat)
     (hni : NoIgnored m (sh.inPorts.zip (padTo (h.net.node c).ins sh.inPorts.length)))
-    (h5 : NNet) (map : Array (Option Nat)) (dang : List (Option Nat)) (he : substituteCore h c m = some (h5, map, dang)) :
+    (h5 : NNet) (map : Array (Option Nat)) (dang : List (Option Nat))
+    (h2 : NNet) (net4 net5 : Net) (ren : Option Nat → Option Nat)
+    (hil : (h.net.node c).ins.length ≤ sh.inPorts.length) (hol : (h.net.node c).outs.length ≤ sh.outLines.length)
+    (hfold : (List.range m.net.nodes.size).foldlM (addImplNode m (h.names.getD c "") (some dn)) (phase1 h c m (some dn)) = some (h2, map))
+    (hci : connectIns m map (sh.inPorts.zip (padTo (h.net.node c).ins sh.inPorts.length)) (phase3 m map h2, id) = some (net4, ren))
+    (hco : connectOuts m map (sh.outLines.zip ((padTo (h.net.node c).outs sh.outLines.length).map ren)) (net4, []) = some (net5, dang))
+    (e : h5 = { h2 with net := net5 }) :
     Frame h c ((h.net.node c).ins.filterMap id) ((h.net.node c).outs.filterMap id) h5 ∧ MapGe map c h.net.nodes.size ∧
     (∀ k ll, (h.net.node c).ins.getD k none = some ll → ∃ inn r rp, sh.inPorts[k]? = some inn ∧
       inTarget m map inn = some (r, rp) ∧ (h5.net.line ll).reader = r ∧ (h5.net.line ll).rpin = rp) ∧
     (∀ k ll, (h.net.node c).outs.getD k none = some ll → ∃ il d dp, sh.outLines[k]? = some il ∧
       outTarget m map il = some (d, dp) ∧ (h5.net.line ll).driver = d ∧ (h5.net.line ll).dpin = dp) := by
-  obtain ⟨h2, net4, ren, net5, hil, hol, hfold, hci, hco, e⟩ := substituteCore_inv h c m sh hs h5 map dang he
-  rw [hd] at hfold
   have f1 := frame_phase1 h c m dn ((h.net.node c).ins.filterMap id) ((h.net.node c).outs.filterMap id)
   have f2 := frame_foldlM m _ (some dn) _ _ _ hfold f1.1 f1.2
   have f3 : FrameA h c ((h.net.node c).ins.filterMap id) ((h.net.node c).outs.filterMap id)
@@ -132,5 +139,19 @@ theorem substituteCore_wire (h : NNet) (c : Nat) (m : NNet) (sh : Shape) (hs : i
       exact mem_zip_of_getElem? (List.getElem?_eq_getElem hklt) (padTo_getElem? _ _ k ll hk)
     obtain ⟨d, dp, ht, h1, h2⟩ := wo.2.2.2.2 _ ll hmem
     exact ⟨sh.outLines[k], d, dp, List.getElem?_eq_getElem hklt, ht, by rw [hline]; exact h1, by rw [hline]; exact h2⟩
+
+/-- frame and wiring of `substituteCore` when the designated cell exists and no connected input is ignored -/
+theorem substituteCore_wire (h : NNet) (c : Nat) (m : NNet) (sh : Shape) (hs : implShape m = some sh) (w : WFr h)
+    (hc : c < h.net.nodes.size) (dn : Nat) (hd : sh.des = some dn)
+    (hni : NoIgnored m (sh.inPorts.zip (padTo (h.net.node c).ins sh.inPorts.length)))
+    (h5 : NNet) (map : Array (Option Nat)) (dang : List (Option Nat)) (he : substituteCore h c m = some (h5, map, dang)) :
+    Frame h c ((h.net.node c).ins.filterMap id) ((h.net.node c).outs.filterMap id) h5 ∧ MapGe map c h.net.nodes.size ∧
+    (∀ k ll, (h.net.node c).ins.getD k none = some ll → ∃ inn r rp, sh.inPorts[k]? = some inn ∧
+      inTarget m map inn = some (r, rp) ∧ (h5.net.line ll).reader = r ∧ (h5.net.line ll).rpin = rp) ∧
+    (∀ k ll, (h.net.node c).outs.getD k none = some ll → ∃ il d dp, sh.outLines[k]? = some il ∧
+      outTarget m map il = some (d, dp) ∧ (h5.net.line ll).driver = d ∧ (h5.net.line ll).dpin = dp) := by
+  obtain ⟨h2, net4, ren, net5, hil, hol, hfold, hci, hco, e⟩ := substituteCore_inv h c m sh hs h5 map dang he
+  rw [hd] at hfold
+  exact substituteCore_wireP h c m sh w hc dn hni h5 map dang h2 net4 net5 ren hil hol hfold hci hco e
 
 end KV.Transform
